@@ -66,6 +66,8 @@ def _accept_wrap_by_callers(run, P):
 
 def check(run):
     P = run.program
+    from ..rules import consts as _consts
+    _consts.check(run, P)
     run.explanation = (
         "Abstract interpretation with unit (deg/rad), role (lon/lat/x/y/z), longitude-range and unit-length facets over "
         "coordinates.py/grid.py/validation.py and everything they call: Grid lon/lat variables are degrees by the schema, "
